@@ -65,7 +65,7 @@ def deco(arr):
     return arr
 
 
-def catalogue(da, a, b, t, sq, v, ds, tmpdir, cn):
+def catalogue(da, a, b, t, sq, v, ds, tmpdir, cn, extra=None, lab3=None):
     x, y, z = a.dims
     ya = a.axes[y].values
     y0 = ya[0]
@@ -139,6 +139,16 @@ def catalogue(da, a, b, t, sq, v, ds, tmpdir, cn):
         'commaname-reshape-drop-refused': lambda: cn.reshape(y, z), 'commaname-regroup': lambda: cn.flatten((y, z)).reshape(z, cx, y),
         'commaname-transpose': lambda: cn.transpose(z, y, cx), 'commaname-mean': lambda: cn.mean(axis=cx), 'commaname-add': lambda: cn + cn.mean(axis=y),
     })
+    # index arrays, masks and right-hand sides are "arrays passed to it" too (they are among the watched operands)
+    negp, mask3, rhs3 = extra
+    ops.update({
+        'arg-negative-positions-ix': lambda: a.ix[negp], 'arg-negative-positions-take': lambda: a.take(negp, axis=y, indexing='position'),
+        'arg-negative-positions-put': lambda: a.put(negp, 1.5, axis=y, indexing='position', inplace=False),
+        'arg-mask-setna-first': lambda: a.setna([mask3, a.values[0, 0, 0]]), 'arg-mask-setna-last': lambda: a.setna([a.values[0, 0, 0], mask3]),
+        'arg-mask-index': lambda: a[mask3], 'arg-mask-put': lambda: a.put(mask3, 0., inplace=False), 'arg-rhs-put': lambda: a.put({y: y0}, rhs3, inplace=False),
+        'arg-labels-reindex': lambda: a.reindex_axis(lab3, axis=y), 'arg-labels-take': lambda: a.take(lab3, axis=y),
+        'arg-labels-interp': lambda: a.interp_axis(lab3.astype(float), axis=y) if lab3.dtype.kind in 'if' else None,
+    })
     if getattr(da, '_ncio', False) and tmpdir:
         ops['write_nc'] = lambda: a.write_nc(os.path.join(tmpdir, 'imm.nc'), 'a')
         ops['ds-write_nc'] = lambda: ds.write_nc(os.path.join(tmpdir, 'imm2.nc'))
@@ -164,8 +174,12 @@ def check(case, ctx):
     try:
         cn = deco(gen.build(case["a"], meta=False))
         cn.axes[0].name = 'p,q'
-        ops = catalogue(da, a, b, t, sq, v, ds, tmpdir, cn)
-        watched = (a, b, t, sq, v, ds, cn)
+        negp = np.array([-1, 0], dtype=np.int64)
+        mask3 = np.array(a.values > np.nanmedian(a.values))
+        rhs3 = np.arange(float(a.shape[0] * a.shape[2])).reshape(a.shape[0], a.shape[2])
+        lab3 = np.array(a.axes[y].values[::-1], copy=True)
+        ops = catalogue(da, a, b, t, sq, v, ds, tmpdir, cn, extra=(negp, mask3, rhs3), lab3=lab3)
+        watched = (a, b, t, sq, v, ds, cn, negp, mask3, rhs3, lab3)
         names = list(ops)
         classes = []
         for name in names:
